@@ -214,6 +214,7 @@ def run(tier, seed, replay=None):
                        'restricted to what is left of it when the order is submitted']
     from translator import gen_all
     ok, msgs = gen_all.generate()
+    msgs = gen_all.relevant(msgs, ['candle', 'backtest']); ok = not msgs
     res.oblige('translator regenerated the kernels from /repo', ok, '\n'.join(msgs))
     C.standard_proof_step(res, 'Props.C02', THEOREMS, ['theories/Props/C02.vo', 'theories/Run/C02Run.vo'])
     rng = C.rng_for(seed, PID)
